@@ -954,6 +954,10 @@ func flashLenient(raw []byte, name, server string) flashWire {
 	return w
 }
 
+type flashCtx struct {
+	fiber.DefaultCtx
+}
+
 type flashValidator struct{}
 
 func (flashValidator) Validate(out any) error {
@@ -1061,6 +1065,14 @@ func flashMain(s *simrt.Sim, info *harness.RunInfo) {
 	s.Logf("cfg errorHandler=%d", ehMode)
 	app := fiber.New(fcfg)
 	r.app = app
+	if s.Chance(200) {
+		// an application with a context type of its own, built the documented way
+		app.NewCtxFunc(func(a *fiber.App) fiber.CustomCtx {
+			return &flashCtx{DefaultCtx: *fiber.NewDefaultCtx(a)}
+		})
+		s.Logf("cfg customCtx=true")
+		s.Count("probe_custom_context_type")
+	}
 	record := func(c fiber.Ctx, op *flashOp) {
 		op.ran = true
 		op.cookie = strings.Clone(c.Cookies(flashName))
